@@ -21,9 +21,9 @@ from . import c01
 AREA = "Wallet"
 
 
-def drive(ctx, bindir, name, args, seed):
+def drive(ctx, bindir, name, args, seed, binary="c08_driver"):
     path = ctx.path("trace_%s.ndjson" % name)
-    lib.run_bin(os.path.join(bindir, "c08_driver"), [path] + args, env_extra={"VERIF_SEED": str(seed)}, timeout=3400)
+    lib.run_bin(os.path.join(bindir, binary), [path] + args, env_extra={"VERIF_SEED": str(seed)}, timeout=3400)
     return path
 
 
@@ -95,6 +95,12 @@ def run(ctx):
             ctx.add_sample(s)
         if not validate(ctx, d, path, name):
             break
+    # the same flows against the wallet crates built WITH transparent-inputs (never compiled by the baseline suite)
+    if not ctx.violations:
+        tbin = lib.cargo_build("h_wallet_t", ["c08_driver_t"])
+        path = drive(ctx, tbin, "t_base", ["10", "90"] if ctx.quick() else ["40", "110"], ctx.seed * 100 + 50, binary="c08_driver_t")
+        stats(path, tot)
+        validate(ctx, d, path, "t_base")
     if not ctx.violations and (tot.get("propose_ok", 0) < 25 or tot.get("ok_with_lock", 0) < 5 or tot.get("states_with_locks", 0) < 20
                                or tot.get("inputs_judged", 0) < 50):
         raise lib.ToolError("vacuity: too few successful proposals / locks in the trace: %s" % tot)
